@@ -14,7 +14,8 @@ open Rx Py
 
 structure Rec where
   spans : Str → M Str
-  document : Str → M Str
+  /-- `document.render(source, nesting)` -/
+  document : Nat → Str → M Str
 
 /-- Python's `a & m` for an `int` `a` of either sign and a non-negative mask. -/
 def pyAnd (a : Int) (m : Nat) : Nat :=
